@@ -199,7 +199,7 @@ class AB:
     def cur_si(self):
         return len(self.b.sessions) - 1
 
-    def net_simple(self, verb, arg_form="given", code=None, multi=False, close_after=False, reset_after=False):
+    def net_simple(self, verb, arg_form="given", code=None, multi=False, close_after=False, reset_after=False, extra=None):
         """cd/cdup/pwd/mkdir/rmdir/del/stat/syst/noop/rhelp/size/user-less commands mapping to one FTP command"""
         ftp = {"cd": b"CWD", "cdup": b"CDUP", "pwd": b"PWD", "mkdir": b"MKD", "rmdir": b"RMD", "del": b"DELE", "stat": b"STAT",
                "syst": b"SYST", "noop": b"NOOP", "rhelp": b"HELP", "size": b"SIZE"}[verb]
@@ -227,7 +227,7 @@ class AB:
             return
         if verb == "size" and code is None:
             code = rng.choice([213, 213, 550])
-        ci = self.b.simple(ftp, arg, code=code, multi=multi, close_after=close_after, reset_after=reset_after)
+        ci = self.b.simple(ftp, arg, code=code, multi=multi, close_after=close_after, reset_after=reset_after, extra=extra)
         if verb == "size" and code == 213:
             # a size reply the client can parse
             rp = self.b.cur[-1]["now"][0]
@@ -479,7 +479,9 @@ def fam_faults(rng, n, dist):
             dist.add("fault:preceded-by-locally-refused-get")
         if a.connected:
             k = rng.choice(["close-after-reply", "reset-after-reply", "421", "garbage", "eof-instead-of-reply", "dead-data-port",
-                            "refused-open", "close-eof", "close-garbage", "close-after-peer-gone", "close-after-peer-reset"])
+                            "refused-open", "close-eof", "close-garbage", "close-after-peer-gone", "close-after-peer-reset",
+                            # what ends the session arrives together with further complete lines nobody will read
+                            "421+leftover", "garbage+leftover", "421+leftover", "garbage+leftover"])
             if k == "dead-data-port" and a.mode == "A":
                 k = "eof-instead-of-reply"          # (only a passive data connection can find nobody listening)
             dist.add("fault:" + k)
@@ -495,6 +497,14 @@ def fam_faults(rng, n, dist):
                 a.connected = a.b.connected = False
             elif k == "421":
                 a.net_simple("cdup", code=421)
+                a.connected = a.b.connected = False
+            elif k == "421+leftover":
+                a.net_simple("cdup", code=421, extra=[rng.choice([200, 220, 230]), 331])
+                a.connected = a.b.connected = False
+            elif k == "garbage+leftover":
+                a.line(b"pwd")
+                a.b.cur.append(P.reaction([("G", b"not a reply at all\r\n"), a.b.m(rng.choice([200, 220]), "LEFTOVER"), a.b.m(230, "LEFTOVER")],
+                                          close_after=True))
                 a.connected = a.b.connected = False
             elif k == "garbage":
                 a.line(b"pwd")
